@@ -67,6 +67,49 @@ Proof.
   destruct (contains f w); [|reflexivity]. simpl in H1. apply str_eqb_eq in H1. congruence.
 Qed.
 
+(** ** message.hasFlag on the joined flag string (fix 378938d): strings.Fields
+    gives back the flags of a well-formed view, so the test is set membership *)
+Lemma flag_cmp_agree a b : flag_eqb a b = flag_same a b.
+Proof. reflexivity. Qed.
+
+Lemma fields_aux_tok t : forall s cur, forallb (fun c => negb (is_space c)) t = true ->
+  fields_aux (t ++ s) cur = fields_aux s (rev t ++ cur).
+Proof.
+  induction t as [|c t IH]; intros s cur H; [reflexivity|].
+  cbn [forallb] in H. apply andb_true_iff in H as [H1 H2]. apply negb_true_iff in H1.
+  cbn [app fields_aux]. rewrite H1. rewrite IH by exact H2. cbn [rev]. now rewrite <- app_assoc.
+Qed.
+
+Lemma flag_ok_inv f : flag_ok f = true -> f <> [] /\ forallb (fun c => negb (is_space c)) f = true.
+Proof. unfold flag_ok. destruct f; [discriminate|]. intros H. split; [discriminate | exact H]. Qed.
+
+Lemma rev_rev_cons (f : str) : f <> [] -> exists c r, rev f = c :: r.
+Proof.
+  intros N. destruct (rev f) eqn:E; [|eauto].
+  apply (f_equal (@rev _)) in E. rewrite rev_involutive in E. now subst.
+Qed.
+
+Lemma fields_join fs : forallb flag_ok fs = true -> fields (join fs [sp]) = fs.
+Proof.
+  unfold fields. induction fs as [|f fs IH]; intros H; [reflexivity|].
+  cbn [forallb] in H. apply andb_true_iff in H as [Hf H]. destruct (flag_ok_inv f Hf) as [Hne Hsp].
+  destruct (rev_rev_cons f Hne) as (c & r & E).
+  destruct fs as [|g fs].
+  - cbn [join]. rewrite <- (app_nil_r f) at 1. rewrite fields_aux_tok by exact Hsp. rewrite app_nil_r.
+    cbn [fields_aux]. rewrite E, <- E, rev_involutive. reflexivity.
+  - change (join (f :: g :: fs) [sp]) with (f ++ sp :: join (g :: fs) [sp]).
+    rewrite fields_aux_tok by exact Hsp. rewrite app_nil_r. cbn [fields_aux].
+    replace (is_space sp) with true by reflexivity. rewrite E, <- E, rev_involutive.
+    f_equal. now apply IH.
+Qed.
+
+Lemma flag_test_go fs w : forallb flag_ok fs = true ->
+  has_flag_go (join fs [sp]) w = existsb (fun g => flag_same g w) fs.
+Proof.
+  intros H. unfold has_flag_go. rewrite (fields_join fs H). clear H.
+  induction fs as [|a l IH']; [reflexivity|]. cbn [existsb]. now rewrite flag_cmp_agree, IH'.
+Qed.
+
 (** ** numerals *)
 Lemma digit_facts c : is_digit c = true ->
   Ascii.eqb c "-"%char = false /\ Ascii.eqb c "+"%char = false /\ Ascii.eqb c star = false
